@@ -1299,11 +1299,16 @@ class BufferedWriter(IndexWriter):
                 self.timer.cancel()
 
             ramreader = self._get_ram_reader()
+            ramsegment = self.codec.segment
             self._make_ram_index()
 
             if self.bufferedcount:
                 self.writer.add_reader(ramreader)
             self.writer.commit(**self.commitargs)
+            # The buffered documents are in a committed segment now: a
+            # searcher refreshed from here on must not carry the in-memory
+            # segment over as well
+            ramsegment.flushed = True
             self.bufferedcount = 0
             self._flush_wanted = False
 
